@@ -148,6 +148,13 @@ func Judge(exp Expect, o mon.Outcome) Verdict {
 	return Verdict{OK: true}
 }
 
+// attributeLess lists the operators that have no attribute at all in opset 13.
+var attributeLess = map[string]bool{"Add": true, "Sub": true, "Mul": true, "Div": true, "And": true, "Or": true, "Xor": true, "Not": true,
+	"Equal": true, "Greater": true, "GreaterOrEqual": true, "Less": true, "LessOrEqual": true, "Abs": true, "Acos": true, "Acosh": true,
+	"Asin": true, "Asinh": true, "Atan": true, "Atanh": true, "Cos": true, "Cosh": true, "Sin": true, "Sinh": true, "Tan": true, "Tanh": true,
+	"Relu": true, "Sigmoid": true, "PRelu": true, "MatMul": true, "Expand": true, "Reshape": true, "Shape": true, "Squeeze": true,
+	"Unsqueeze": true, "Slice": true}
+
 // KnownMatcher inspects a violating execution and returns the signature of a
 // known defect when — and only when — the observed behaviour is exactly the
 // known wrong one; "" otherwise.
@@ -160,6 +167,9 @@ func CheckOp(c *Ctx, req mon.OpReq, exp Expect, viaModel bool, mo mon.ModelOpts,
 	ok := true
 	if mo.IR == 0 && c.Idx%3 == 0 {
 		mo.IR = []int64{1, 3, 4, 6, 8, 9, 10, -1}[(c.Idx/3)%8]
+	}
+	if c.Idx%5 == 2 { // node names are optional
+		mo.NoNames = true
 	}
 	o, muts := mon.RunOpAPI(req)
 	c.Eval(1)
@@ -235,6 +245,30 @@ func CheckOp(c *Ctx, req mon.OpReq, exp Expect, viaModel bool, mo mon.ModelOpts,
 		if v := Judge(expU, ou); !v.OK {
 			ok = false
 			report(c, "api, attributes without their type field", untyped, expU, ou, v, known)
+		}
+	}
+	if c.Idx%32 == 10 && ok && len(req.Attrs) == 0 && attributeLess[req.Op] {
+		// an attribute the operator does not have in opset 13 (left over from an older opset's
+		// broadcasting scheme, or simply unknown): the node is refused or computed as without it
+		stray := req
+		switch c.R.Intn(3) {
+		case 0:
+			stray.Attrs = []*mon.Attr{mon.AttrI("axis", int64(c.R.Range(0, 2)))}
+		case 1:
+			stray.Attrs = []*mon.Attr{mon.AttrI("broadcast", 1), mon.AttrI("axis", int64(c.R.Range(0, 1)))}
+		default:
+			stray.Attrs = []*mon.Attr{mon.AttrInts("consumed_inputs", []int64{0, 1})}
+		}
+		expS := exp
+		if expS.Kind == MustEqual {
+			expS.Kind = MayRefuse
+		}
+		os, _ := mon.RunOpAPI(stray)
+		c.Eval(1)
+		c.Count("requests-with-a-stray-attribute", 1)
+		if v := Judge(expS, os); !v.OK {
+			ok = false
+			report(c, "api, node carries an attribute the operator does not have", stray, expS, os, v, known)
 		}
 	}
 	if c.Idx%64 == 2 && ok {
